@@ -57,6 +57,23 @@ CMP = {'==', '!=', '<', '>', '<=', '>='}
 
 
 def mk_op(op, a, b, bits):
+    # (x & M1) & M2  ->  x & (M1 & M2)
+    if op == '&':
+        for u, m in ((a, b), (b, a)):
+            if is_const(m) and isinstance(u, tuple) and u and u[0] == 'op' and len(u) == 5 and u[1] == '&' and u[4] == bits:
+                for x, m1 in ((u[2], u[3]), (u[3], u[2])):
+                    if is_const(m1) and not is_const(x):
+                        return mk_op('&', x, C(m1[1] & m[1], bits), bits)
+    # ((p ^ q) & M) ==/!= 0  ->  (p & M) ==/!= (q & M) ;  (p ^ q) ==/!= 0  ->  p ==/!= q   (comparison of two fields spelled with xor)
+    if op in ('==', '!='):
+        for x, z in ((a, b), (b, a)):
+            if is_const(z) and z[1] == 0 and isinstance(x, tuple) and x and x[0] == 'op' and len(x) == 5:
+                if x[1] == '&':
+                    for u, m in ((x[2], x[3]), (x[3], x[2])):
+                        if is_const(m) and isinstance(u, tuple) and u and u[0] == 'op' and len(u) == 5 and u[1] == '^' and not is_const(u[2]) and not is_const(u[3]):
+                            return mk_op(op, mk_op('&', u[2], m, x[4]), mk_op('&', u[3], m, x[4]), 1)
+                if x[1] == '^' and not is_const(x[2]) and not is_const(x[3]):
+                    return mk_op(op, x[2], x[3], 1)
     if is_const(a) and is_const(b):
         x, y = a[1], b[1]
         m = (1 << bits) - 1
@@ -640,6 +657,40 @@ class Sim:
                     self.materialise_functor(p, val)
         return None
 
+    def mutated_local(self, opath):
+        """a non-const member function was called on a local object whose value is opaque (an iterator, a container ...):
+        expressions over its old value must not be taken to describe it any longer"""
+        if isinstance(opath, tuple) and opath and opath[0] == 'var':
+            v = self.store.get(opath)
+            if isinstance(v, tuple) and v and v[0] == 's':
+                self.store[opath] = self.new_sym(v[1].split('#')[0] + "'", v[2])
+                self.writes.append(opath)
+
+    def optional_value(self, opath):
+        """(engaged?, contained value) of a std::optional object whose construction is known on this path, else None"""
+        v = self.store.get(opath)
+        if v is None and opath[0] == 'deref':
+            v = opath[1]
+        if not (isinstance(v, tuple) and v and v[0] == 'obj' and str(v[1]).startswith('std::optional<')):
+            return None
+        ctor, args = str(v[2]), v[3]
+        if len(args) == 0 or 'nullopt_t' in ctor:
+            return (False, None)
+        if len(args) == 1:
+            a = args[0]
+            if isinstance(a, tuple) and a and a[0] == 'obj' and str(a[1]).startswith('std::optional<'):
+                return self.optional_value_of(a)
+            return (True, self.rv(a))
+        return None
+
+    def optional_value_of(self, v):
+        ctor, args = str(v[2]), v[3]
+        if len(args) == 0 or 'nullopt_t' in ctor:
+            return (False, None)
+        if len(args) == 1 and not (isinstance(args[0], tuple) and args[0] and args[0][0] == 'obj'):
+            return (True, self.rv(args[0]))
+        return None
+
     def functor_record(self, rec):
         """(record name, operator()) if rec is a repository class with exactly one operator()"""
         if not rec:
@@ -810,6 +861,14 @@ class Sim:
             ptr = self.addr_of(opath)
         if is_atomic_record(rec):
             return self.atomic(n, opath)
+        if rec.startswith('std::optional<'):
+            ov = self.optional_value(opath)
+            if ov is not None:
+                m_ = n.get('method', '')
+                if n.get('conversion') == 'bool' or m_ == 'has_value':
+                    return TRUE if ov[0] else FALSE
+                if m_ == 'value' and ov[0]:
+                    return ov[1]
         fnm = self.facts.functions.get(n.get('callee'))
         if fnm is not None and n.get('in_root') and self.eng.inline_helper(fnm) and self.depth < 4:
             vals = [self.ev(a) for a in n['args'] if a.get('k') != 'defarg']
@@ -824,6 +883,7 @@ class Sim:
             r = ('app', method, (('lv', opath, None), ('c', ver, 8)) + args)
         else:
             self.store[('objver', opath)] = ver + 1
+            self.mutated_local(opath)
             r = self.new_sym('ret:' + method)
         self.event({'kind': 'call', 'callee': n.get('callee'), 'name': method, 'record': rec, 'obj': opath,
                     'objptr': ptr, 'args': args, 'result': r, 'line': n.get('line'), 'in_root': n.get('in_root'),
@@ -854,6 +914,10 @@ class Sim:
         if not argx:
             return self.new_sym('op' + op)
         opath = self.lv_path(argx[0]) if rec else None
+        if rec and rec.startswith('std::optional<') and opath is not None and op in ('*', '->'):
+            ov = self.optional_value(opath)
+            if ov is not None and ov[0]:
+                return ov[1]
         if rec and opath is not None:
             rest = tuple(self.rv(a) for a in argx[1:])
             ver = self.store.get(('objver', opath), 0)
@@ -863,6 +927,7 @@ class Sim:
                     r = ('lv', ('deref', r), None) if op == '*' else r
             else:
                 self.store[('objver', opath)] = ver + 1
+                self.mutated_local(opath)
                 r = self.new_sym('op' + op)
                 if op == '[]':
                     r = ('lv', ('index', opath, rest[0] if rest else None), None)
@@ -1234,6 +1299,33 @@ class Sim:
                 nxt = succs[0] if out else succs[1]
                 if nxt is None:
                     raise Infeasible()
+            elif term and term.get('cls') == 'SwitchStmt' and 'cond' in term:
+                # select by the case labels of the successor blocks; a successor without a case label is the default /
+                # the statement after the switch
+                cv = self.rv(self.ev(term['cond']))
+                live = [s for s in succs if s is not None]
+                if not live:
+                    raise Infeasible()
+                cases = [(s, blocks[s].get('case')) for s in live]
+                if is_const(cv) and all(c != '?' for _, c in cases):
+                    hit = [s for s, c in cases if c is not None and int(c) == cv[1]]
+                    other = [s for s, c in cases if c is None]
+                    if hit:
+                        nxt = hit[0]
+                    elif other:
+                        nxt = other[-1]
+                    else:
+                        raise Infeasible()
+                else:
+                    idx = self.choose(len(live), 'sw') if len(live) > 1 else 0
+                    nxt = live[idx]
+                    c = blocks[nxt].get('case')
+                    if c is not None and c != '?' and not is_const(cv):
+                        self.assume(mk_op('==', cv, C(int(c), bits_of(cv)), 1), True, term.get('line'))
+                    elif c is None and not is_const(cv):
+                        for s2, c2 in cases:
+                            if c2 is not None and c2 != '?':
+                                self.assume(mk_op('==', cv, C(int(c2), bits_of(cv)), 1), False, term.get('line'))
             else:
                 live = [s for s in succs if s is not None]
                 if not live:
